@@ -20,6 +20,12 @@ def specs(tier, seed, chk):
     for i, s in enumerate(sp):
         s["hostile"] = {"every": 3, "burst": 10 if tier == "quick" else 30, "tun": True}
         s["label"] = "h" + s["label"]
+        if i % 4 == 0:
+            # a hostile tunnel USER: well-formed raw DATA frames of every length around the forwarding buffers
+            k = i // 4
+            around = [4096 + d for d in range(-12, 9)] + [2048 + d for d in range(-5, 4)]
+            big = [8192, 16384, 32767, 32768, 40000, 65000, 65400, 65490, 65499, 65500, 65503, -70000, -66000, -65536, -65500]
+            s["hostile"]["fwd"] = around[k % 3::3] + [big[k % len(big)], big[(k + 5) % len(big)], 12 + k % 40, 1, 11]
     return sp
 
 
